@@ -279,4 +279,19 @@ PROPS['C20'] = {
     'assumptions': [CORR],
 }
 
+PROPS['C08'] = {
+    'lean_targets': ['EmmetProps.C08'],
+    'lean_imports': ['EmmetProps.C08'],
+    'theorems': [
+        thm('EmmetProps.C08_result_independent', 'for EVERY history of calls (markup / stylesheet, succeeding / failing, any options, any cache dictionaries) and every probe: outcome after the history = outcome in a fresh state, provided calls sharing a cache dictionary agree on the snippet table'),
+        thm('EmmetProps.C08_cache_transparent', 'with and without a cache dictionary a call has the same outcome'),
+    ],
+    'domains': ['dom_history'],
+    'rule': 'histories of 2-10 expand calls over 1-3 configurations (markup and stylesheet; failing abbreviations; wrap text; BEM; comments; user snippets with numeric defaults; differing units) passed as dictionaries or as shared Config objects, with or without one shared cache dictionary, followed by a probe; the probe is repeated in a fresh interpreter process and must give the same outcome; the caller\'s dictionaries and every module-level mutable container / mutable default argument under emmet.* are compared before / after; non-trivial = history of at least 2 calls; distinct = distinct history',
+    'explanation': 'The world model states what may survive a call (only cache entries) and the theorem shows results cannot depend on it; that the implementation keeps nothing else is what the correspondence (probe after history = model = fresh interpreter) and the residue measurement check. Object lifetime ("keeps no per-call data alive") is a runtime matter the model can only state: partial.',
+    'level_text': 'Lean 4 theorem on the world model (state = cache entries only): results are independent of any history; cache transparency. That the real code has no other surviving state is checked by differential runs against a fresh interpreter and by measuring module-level containers (partial for the "keeps no data alive" clause).',
+    'level_note': 'Trusted: Lean kernel + standard axioms; the world model is the claim about what survives a call. Known finding F13 (BEM lookup default dictionary grows) is reported, not repaired.',
+    'assumptions': [CORR, 'calls that share a cache dictionary use the same effective stylesheet snippet table (the cache is keyed by nothing else)'],
+}
+
 NOT_APPLICABLE = {}
